@@ -410,4 +410,165 @@ theorem decode_congr (S : Scheme) (f : Content → Except RlpErr S.PK) (buf : By
         simp only
         rw [decodeBody_congr S f payload (fun c hc => h c (by unfold contentOf; simp only [h2, hc]))]
 
+/-! ### `Scheme.Lawful` for the built-in key types
+
+  The three laws hold unconditionally for `k256S`, `libsecpS`, `edS`, `combS` (and for the
+  harness's `toyS`); curve arithmetic and Keccak are never unfolded.  The per-key length bound
+  `KeyOK` holds for every key `enrToPublic` can return. -/
+
+theorem k256S_pub_inj (a b : k256S.PK) (_h : k256S.enrKey a = k256S.enrKey b)
+    (h : k256S.encodePub a = k256S.encodePub b) : a = b := h
+theorem libsecpS_pub_inj (a b : libsecpS.PK) (_h : libsecpS.enrKey a = libsecpS.enrKey b)
+    (h : libsecpS.encodePub a = libsecpS.encodePub b) : a = b := h
+theorem edS_pub_inj (a b : edS.PK) (_h : edS.enrKey a = edS.enrKey b)
+    (h : edS.encodePub a = edS.encodePub b) : a = b := h
+theorem combS_pub_inj (a b : combS.PK) (_h : combS.enrKey a = combS.enrKey b)
+    (h : combS.encodePub a = combS.encodePub b) : a = b := h
+
+theorem kSecp_not_reserved :
+    kSecp ≠ kId ∧ isPortKey kSecp = false ∧ kSecp ≠ kIp ∧ kSecp ≠ kIp6 := by decide
+theorem kEd_not_reserved :
+    kEd ≠ kId ∧ isPortKey kEd = false ∧ kEd ≠ kIp ∧ kEd ≠ kIp6 := by decide
+
+theorem k256S_key_not_reserved (pk : k256S.PK) : k256S.enrKey pk ≠ kId ∧
+    isPortKey (k256S.enrKey pk) = false ∧ k256S.enrKey pk ≠ kIp ∧ k256S.enrKey pk ≠ kIp6 :=
+  kSecp_not_reserved
+theorem libsecpS_key_not_reserved (pk : libsecpS.PK) : libsecpS.enrKey pk ≠ kId ∧
+    isPortKey (libsecpS.enrKey pk) = false ∧ libsecpS.enrKey pk ≠ kIp ∧
+    libsecpS.enrKey pk ≠ kIp6 :=
+  kSecp_not_reserved
+theorem edS_key_not_reserved (pk : edS.PK) : edS.enrKey pk ≠ kId ∧
+    isPortKey (edS.enrKey pk) = false ∧ edS.enrKey pk ≠ kIp ∧ edS.enrKey pk ≠ kIp6 :=
+  kEd_not_reserved
+theorem combS_key_not_reserved (pk : combS.PK) : combS.enrKey pk ≠ kId ∧
+    isPortKey (combS.enrKey pk) = false ∧ combS.enrKey pk ≠ kIp ∧ combS.enrKey pk ≠ kIp6 := by
+  show (if pk.length = 33 then kSecp else kEd) ≠ kId ∧
+    isPortKey (if pk.length = 33 then kSecp else kEd) = false ∧
+    (if pk.length = 33 then kSecp else kEd) ≠ kIp ∧ (if pk.length = 33 then kSecp else kEd) ≠ kIp6
+  split
+  · exact kSecp_not_reserved
+  · exact kEd_not_reserved
+
+theorem secpEnrToPublic_local (dec : Bytes → Option Secp.Pt) (rc : Bool) (c1 c2 : Content)
+    (h : Map.lookup c1 kSecp = Map.lookup c2 kSecp) :
+    secpEnrToPublic dec rc c1 = secpEnrToPublic dec rc c2 := by
+  unfold secpEnrToPublic
+  rw [pubEntry_local c1 c2 kSecp h]
+
+theorem edEnrToPublic_local (c1 c2 : Content) (h : Map.lookup c1 kEd = Map.lookup c2 kEd) :
+    edEnrToPublic c1 = edEnrToPublic c2 := by
+  unfold edEnrToPublic
+  rw [pubEntry_local c1 c2 kEd h]
+
+theorem k256S_pub_local (c1 c2 : Content)
+    (h : ∀ pk : k256S.PK, Map.lookup c1 (k256S.enrKey pk) = Map.lookup c2 (k256S.enrKey pk)) :
+    k256S.enrToPublic c1 = k256S.enrToPublic c2 :=
+  secpEnrToPublic_local _ _ c1 c2 (h [])
+
+theorem libsecpS_pub_local (c1 c2 : Content)
+    (h : ∀ pk : libsecpS.PK,
+      Map.lookup c1 (libsecpS.enrKey pk) = Map.lookup c2 (libsecpS.enrKey pk)) :
+    libsecpS.enrToPublic c1 = libsecpS.enrToPublic c2 :=
+  secpEnrToPublic_local _ _ c1 c2 (h [])
+
+theorem edS_pub_local (c1 c2 : Content)
+    (h : ∀ pk : edS.PK, Map.lookup c1 (edS.enrKey pk) = Map.lookup c2 (edS.enrKey pk)) :
+    edS.enrToPublic c1 = edS.enrToPublic c2 :=
+  edEnrToPublic_local c1 c2 (h [])
+
+theorem combS_pub_local (c1 c2 : Content)
+    (h : ∀ pk : combS.PK, Map.lookup c1 (combS.enrKey pk) = Map.lookup c2 (combS.enrKey pk)) :
+    combS.enrToPublic c1 = combS.enrToPublic c2 := by
+  have hs : Map.lookup c1 kSecp = Map.lookup c2 kSecp := h (List.replicate 33 0)
+  have he : Map.lookup c1 kEd = Map.lookup c2 kEd := h []
+  have hk := k256S_pub_local c1 c2 (fun _ => hs)
+  cases h1 : k256S.enrToPublic c1 with
+  | ok pk =>
+    rw [combS_enrToPublic_of_k256 c1 pk h1, combS_enrToPublic_of_k256 c2 pk (by rw [← hk]; exact h1)]
+  | error e =>
+    rw [comb_falls_back_to_ed c1 e h1, comb_falls_back_to_ed c2 e (by rw [← hk]; exact h1)]
+    exact edEnrToPublic_local c1 c2 he
+
+/-- every key `enr_to_public` can return is a 33-byte (secp256k1) resp. 32-byte (ed25519) string -/
+theorem k256S_enrToPublic_len (c : Content) (pk : Bytes) (h : k256S.enrToPublic c = .ok pk) :
+    pk.length = 33 := secpEnrToPublic_len _ _ c pk h
+theorem libsecpS_enrToPublic_len (c : Content) (pk : Bytes)
+    (h : libsecpS.enrToPublic c = .ok pk) : pk.length = 33 := secpEnrToPublic_len _ _ c pk h
+theorem edS_enrToPublic_len (c : Content) (pk : Bytes) (h : edS.enrToPublic c = .ok pk) :
+    pk.length = 32 := edEnrToPublic_len c pk h
+theorem combS_enrToPublic_len (c : Content) (pk : Bytes) (h : combS.enrToPublic c = .ok pk) :
+    pk.length = 33 ∨ pk.length = 32 := by
+  rcases combS_enrToPublic_cases c pk h with ⟨_, hl⟩ | ⟨_, _, hl⟩
+  · exact Or.inl hl
+  · exact Or.inr hl
+
+/-- `KeyOK` holds for every key the key type can read back from a record (33 resp. 32 bytes), in
+    particular for the record's own key when an update is signed with it -/
+theorem k256S_keyOK_of_enrToPublic (c : Content) (pk : k256S.PK)
+    (h : k256S.enrToPublic c = .ok pk) : KeyOK k256S pk := by
+  have hl : (k256S.encodePub pk).length = 33 := k256S_enrToPublic_len c pk h
+  exact ⟨by rw [hl]; decide, show kSecp.length < 2 ^ 64 by decide⟩
+theorem libsecpS_keyOK_of_enrToPublic (c : Content) (pk : libsecpS.PK)
+    (h : libsecpS.enrToPublic c = .ok pk) : KeyOK libsecpS pk := by
+  have hl : (libsecpS.encodePub pk).length = 33 := libsecpS_enrToPublic_len c pk h
+  exact ⟨by rw [hl]; decide, show kSecp.length < 2 ^ 64 by decide⟩
+theorem edS_keyOK_of_enrToPublic (c : Content) (pk : edS.PK) (h : edS.enrToPublic c = .ok pk) :
+    KeyOK edS pk := by
+  have hl : (edS.encodePub pk).length = 32 := edS_enrToPublic_len c pk h
+  exact ⟨by rw [hl]; decide, show kEd.length < 2 ^ 64 by decide⟩
+theorem combS_keyOK_of_enrToPublic (c : Content) (pk : combS.PK)
+    (h : combS.enrToPublic c = .ok pk) : KeyOK combS pk := by
+  have hl : (combS.encodePub pk).length = 33 ∨ (combS.encodePub pk).length = 32 :=
+    combS_enrToPublic_len c pk h
+  refine ⟨by rcases hl with hl | hl <;> rw [hl] <;> decide, ?_⟩
+  show (if pk.length = 33 then kSecp else kEd).length < 2 ^ 64
+  split <;> decide
+
+/-- `KeyOK` for any key of a plausible length (every real key is 32 or 33 bytes long) -/
+theorem k256S_keyOK (pk : k256S.PK) (h : pk.length < 2 ^ 64) : KeyOK k256S pk :=
+  ⟨h, show kSecp.length < 2 ^ 64 by decide⟩
+theorem libsecpS_keyOK (pk : libsecpS.PK) (h : pk.length < 2 ^ 64) : KeyOK libsecpS pk :=
+  ⟨h, show kSecp.length < 2 ^ 64 by decide⟩
+theorem edS_keyOK (pk : edS.PK) (h : pk.length < 2 ^ 64) : KeyOK edS pk :=
+  ⟨h, show kEd.length < 2 ^ 64 by decide⟩
+theorem combS_keyOK (pk : combS.PK) (h : pk.length < 2 ^ 64) : KeyOK combS pk := by
+  refine ⟨h, ?_⟩
+  show (if pk.length = 33 then kSecp else kEd).length < 2 ^ 64
+  split <;> decide
+
+/-- The scheme laws hold for the four built-in key types. -/
+theorem k256S_lawful : k256S.Lawful :=
+  ⟨k256S_pub_inj, k256S_key_not_reserved, k256S_pub_local⟩
+theorem libsecpS_lawful : libsecpS.Lawful :=
+  ⟨libsecpS_pub_inj, libsecpS_key_not_reserved, libsecpS_pub_local⟩
+theorem edS_lawful : edS.Lawful :=
+  ⟨edS_pub_inj, edS_key_not_reserved, edS_pub_local⟩
+theorem combS_lawful : combS.Lawful :=
+  ⟨combS_pub_inj, combS_key_not_reserved, combS_pub_local⟩
+
+/-- … and for the toy scheme of the differential harness (Keccak stays opaque). -/
+theorem toyS_lawful : toyS.Lawful where
+  pub_inj := fun _ _ _ h => h
+  key_not_reserved := fun _ =>
+    (by decide : kToy ≠ kId ∧ isPortKey kToy = false ∧ kToy ≠ kIp ∧ kToy ≠ kIp6)
+  pub_local := by
+    intro c1 c2 h
+    have h' : Map.lookup c1 kToy = Map.lookup c2 kToy := h []
+    show toyEnrToPublic c1 = toyEnrToPublic c2
+    unfold toyEnrToPublic
+    rw [pubEntry_local c1 c2 kToy h']
+
+theorem toyS_keyOK_of_enrToPublic (c : Content) (pk : toyS.PK) (h : toyS.enrToPublic c = .ok pk) :
+    KeyOK toyS pk := by
+  have h' : toyEnrToPublic c = .ok pk := h
+  unfold toyEnrToPublic at h'
+  split at h'
+  · cases h'
+  · split at h'
+    · rename_i b _ hl
+      have e : b = pk := by injection h'
+      subst e
+      exact ⟨show b.length < 2 ^ 64 by rw [hl]; decide, show kToy.length < 2 ^ 64 by decide⟩
+    · cases h'
+
 end EnrVerif
